@@ -117,6 +117,14 @@ impl Monitor for Mon {
                 if from_user != 0 || from_sender != 0 {
                     return Some(Violation::new("fee_on_non_trading_op", format!("{}: {} moved from a trader wallet into the insurance fund", s.act.name(), from_user.max(from_sender))).with("act", s.act.name()));
                 }
+                // a deposit or withdrawal moves nothing into the insurance fund at all (in a native deployment a fee would leave
+                // the engine's own account, the attached coins having arrived there first)
+                if matches!(s.act, Act::Deposit { .. } | Act::Withdraw { .. }) {
+                    let into_fund = flow(&s.res.xfers, None, &fund);
+                    if into_fund != 0 {
+                        return Some(Violation::new("fee_on_non_trading_op", format!("{}: {} moved into the insurance fund", s.act.name(), into_fund)).with("act", s.act.name()));
+                    }
+                }
             }
             _ => {}
         }
